@@ -36,7 +36,7 @@ class SkipExportGlyphsFilter(BaseFilter):
 
     def __call__(self, font, glyphSet=None):
         if not self.options.skipExportGlyphs:
-            return self.context.modified  # nothing to do
+            return set()  # nothing to do
 
         modified = super().__call__(font, glyphSet)
 
@@ -90,7 +90,7 @@ class SkipExportGlyphsIFilter(BaseIFilter):
 
     def __call__(self, fonts, glyphSets=None, instantiator=None, **kwargs):
         if not self.options.skipExportGlyphs:
-            return self.context.modified  # nothing to do
+            return set()  # nothing to do
 
         modified = super().__call__(
             fonts, glyphSets, instantiator=instantiator, **kwargs
